@@ -5,7 +5,21 @@ go 1.25.0
 require (
 	cuelang.org/go v0.0.0
 	golang.org/x/mod v0.38.0
+	golang.org/x/text v0.40.0
 	pgregory.net/rapid v1.3.0
+)
+
+require (
+	github.com/cockroachdb/apd/v3 v3.2.3 // indirect
+	github.com/emicklei/proto v1.14.3 // indirect
+	github.com/goccy/go-yaml v1.19.2 // indirect
+	github.com/google/uuid v1.6.0 // indirect
+	github.com/mitchellh/go-wordwrap v1.0.1 // indirect
+	github.com/pelletier/go-toml/v2 v2.4.3 // indirect
+	github.com/protocolbuffers/txtpbfmt v0.0.0-20260716171823-6d48527148f0 // indirect
+	go.yaml.in/yaml/v3 v3.0.5 // indirect
+	golang.org/x/net v0.57.0 // indirect
+	google.golang.org/protobuf v1.36.11 // indirect
 )
 
 replace cuelang.org/go => /repo
